@@ -242,7 +242,8 @@ Definition get_lookup_tables (d : dfa) (cmds : list string) (start : N)
   do ccompadd <- opt_when needs_compadd (get_completion_compadds rt cmds maxlevel);
   Ok (mktables lits mlit mcmd mcompadd mstar maxlevel clit ccmd ccompadd).
 
-(** tables.rs [isomorphic_to]: everything but the literal texts and the completion-side compadd *)
+(** tables.rs [isomorphic_to]: everything but the literal texts (since 5c017d7 the completion-side
+    compadd table is compared as well) *)
 Definition nested_eqb (a b : list (N * list (N * N))) : bool :=
   list_eqb (fun x y => N.eqb (fst x) (fst y)
                        && list_eqb (fun p q => N.eqb (fst p) (fst q) && N.eqb (snd p) (snd q)) (snd x) (snd y)) a b.
@@ -257,7 +258,8 @@ Definition isomorphic_to (a b : tables) : bool :=
   && option_eqb (list_eqb (fun p q => N.eqb (fst p) (fst q) && N.eqb (snd p) (snd q))) (t_mstar a) (t_mstar b)
   && N.eqb (t_maxlevel a) (t_maxlevel b)
   && levels_eqb (t_clit a) (t_clit b)
-  && option_eqb levels_eqb (t_ccmd a) (t_ccmd b).
+  && option_eqb levels_eqb (t_ccmd a) (t_ccmd b)
+  && option_eqb levels_eqb (t_ccompadd a) (t_ccompadd b).
 
 (** ** what the emitters compute around the tables *)
 Definition lookup_sub (c : cdfa) (i : N) : res dfa :=
